@@ -6,7 +6,7 @@ namespace LLFree
 open Prog
 
 section
-variable {c : Cfg} {H : Nat → Prop} {P : Nat → Nat} {R : Nat → Prop} {m : Mem}
+variable {c : Cfg} {H : Nat → Nat} {P : Nat → Nat} {R : Nat → Prop} {m : Mem}
 
 /-- Installing a reservation `l'` of tree `i` (in transit, reserved, class ≥ the slot's class)
     in slot `s` of class `cls`; the previous content of the slot goes in transit. -/
@@ -100,7 +100,7 @@ def demP (tr : Nat) (row n : Nat) (old : Option Reservation) : Nat → Nat := fu
 def demR (tr : Nat) (old : Option Reservation) : Nat → Prop := fun j =>
   match old with | some o => j = o.row / tr | none => False
 
-def Demoted (c : Cfg) (H : Nat → Prop) (m : Mem) (tree : Option Nat) (n cls : Nat)
+def Demoted (c : Cfg) (H : Nat → Nat) (m : Mem) (tree : Option Nat) (n cls : Nat)
     (r : Option (Nat × Option Reservation)) (m' : Mem) : Prop :=
   match r with
   | none => m = m'
